@@ -161,8 +161,12 @@ def gen_attr_value(R, row, objs_so_far, lfi, hc=False):
         vals = [scalar() for _ in range(mult)]
         if any(v is None for v in vals):
             return None
-    if md and mult in (2, 4, 6) and R.random() < 0.5:
-        return [vals[:mult // 2], vals[mult // 2:]]
+    if md and R.random() < 0.5:
+        src = (lambda: scalar()) if cls != 'Attribute' else one
+        nested = eflr.nest(R, src)
+        if any(x is None for x in eflr.flatten(nested)):
+            return vals
+        return nested
     return vals
 
 
